@@ -34,6 +34,8 @@ IPOW2 = z3.Function("ipow2", z3.IntSort(), z3.IntSort())
 LOG2 = z3.Function("log2", z3.RealSort(), z3.RealSort())
 RND = z3.Function("rnd", z3.RealSort(), z3.IntSort())
 BOR = z3.Function("bor", z3.IntSort(), z3.IntSort(), z3.IntSort())
+FLR = z3.Function("flr", z3.RealSort(), z3.IntSort())   # floor, axiom asserted at each use
+CEL = z3.Function("cel", z3.RealSort(), z3.IntSort())   # ceiling, axiom asserted at each use
 
 
 def _pow2_exp(t):
